@@ -34,7 +34,7 @@ git -C /repo apply $OUT/patch.diff || { echo "patch does not apply to /repo"; ex
 results=""
 for id in $PROP "$@"; do
   out=$(timeout 900 ./check $id quick 2>&1); rc=$?
-  sigs=$(echo "$out" | grep -E "^  signature:" | sed 's/  signature: //' | tr '\n' '|')
+  sigs=$(echo "$out" | grep -E "^  signature:" | sed 's/  signature: //' | tr '\n' '|' | sed 's/\\/\\\\/g; s/"/\\"/g')
   results="$results{\"check\":\"$id\",\"exit\":$rc,\"signatures\":\"$sigs\"},"
   echo "== check $id rc=$rc" >> $LOG; echo "$out" | head -40 >> $LOG
 done
